@@ -780,3 +780,38 @@ Proof.
   destruct (Z.log2_spec m Hm) as [_ U]. rewrite <- Z.add_1_r in U. lia.
 Qed.
 End RabinProofs.
+
+(* ---- key text round trip ------------------------------------------------------------------------------------------ *)
+Definition nobar (s : bytes) : Prop := Forall (fun c => c <> bar) s.
+
+Lemma str_pub_nobar : nobar str_pub.
+Proof. repeat constructor; discriminate. Qed.
+Lemma str_sec_nobar : nobar str_sec.
+Proof. repeat constructor; discriminate. Qed.
+
+Theorem import_export_pub k : nobar (k_name k) -> nobar (k_email k) -> nobar (k_type k) -> nobar (k_nizk k) ->
+  import_pub (export_pub k) = Some k.
+Proof.
+  destruct k as [name email type m y nizk sg]. cbn [k_name k_email k_type k_m k_y k_nizk k_sig]. intros Fn Fe Ft Fz.
+  unfold import_pub, export_pub. cbn [k_name k_email k_type k_m k_y k_nizk k_sig]. cbn [app].
+  rewrite (cm_magic str_pub bar _ str_pub_nobar).
+  rewrite (split_at_app bar name _ Fn), (split_at_app bar email _ Fe), (split_at_app bar type _ Ft).
+  rewrite (split_at_app bar (encode62 m) _ (encode62_nobar m)), base62_roundtrip.
+  rewrite (split_at_app bar (encode62 y) _ (encode62_nobar y)), base62_roundtrip.
+  rewrite (split_at_app bar nizk _ Fz). reflexivity.
+Qed.
+
+Theorem import_export_sec k p q : nobar (k_name k) -> nobar (k_email k) -> nobar (k_type k) -> nobar (k_nizk k) ->
+  precompute_ok (k_m k) (k_y k) p q = true ->
+  import_sec (export_sec k p q) = Some (k, p, q).
+Proof.
+  destruct k as [name email type m y nizk sg]. cbn [k_name k_email k_type k_m k_y k_nizk k_sig]. intros Fn Fe Ft Fz PC.
+  unfold import_sec, export_sec. cbn [k_name k_email k_type k_m k_y k_nizk k_sig]. cbn [app].
+  rewrite (cm_magic str_sec bar _ str_sec_nobar).
+  rewrite (split_at_app bar name _ Fn), (split_at_app bar email _ Fe), (split_at_app bar type _ Ft).
+  rewrite (split_at_app bar (encode62 m) _ (encode62_nobar m)), base62_roundtrip.
+  rewrite (split_at_app bar (encode62 y) _ (encode62_nobar y)), base62_roundtrip.
+  rewrite (split_at_app bar (encode62 p) _ (encode62_nobar p)), base62_roundtrip.
+  rewrite (split_at_app bar (encode62 q) _ (encode62_nobar q)), base62_roundtrip.
+  rewrite (split_at_app bar nizk _ Fz), PC. reflexivity.
+Qed.
